@@ -30,6 +30,7 @@ import (
 	htlctypes "mods.irisnet.org/modules/htlc/types"
 	mttypes "mods.irisnet.org/modules/mt/types"
 	nfttypes "mods.irisnet.org/modules/nft/types"
+	oracletypes "mods.irisnet.org/modules/oracle/types"
 	randomtypes "mods.irisnet.org/modules/random/types"
 	recordtypes "mods.irisnet.org/modules/record/types"
 	servicetypes "mods.irisnet.org/modules/service/types"
@@ -250,6 +251,30 @@ func genPlan(seed uint64, blocks int) [][]step {
 					if _, ok := c.Env.Service.GetServiceBinding(ctx, name, hx.KeyAddr(prov)); !ok {
 						return &hx.SignedMsg{Msg: &servicetypes.MsgBindService{ServiceName: name, Provider: addr(prov), Deposit: sdk.NewCoins(coin("stake", 50000)), Pricing: `{"price": "5stake"}`, QoS: 5, Options: "{}", Owner: addr(prov)}, Signer: prov}
 					}
+					// oracle feeds on top of the service: create / start / pause / edit
+					if r1%5 == 1 {
+						fname := fmt.Sprintf("feed%d", r2%2)
+						feed, ok := c.Env.Oracle.GetFeed(ctx, fname)
+						if !ok {
+							return &hx.SignedMsg{Msg: &oracletypes.MsgCreateFeed{FeedName: fname, LatestHistory: 3, Description: "d", Creator: addr(who), ServiceName: name,
+								Providers: []string{addr(prov)}, Input: `{"header":{},"body":{}}`, Timeout: 3, ServiceFeeCap: sdk.NewCoins(coin("stake", 10)),
+								RepeatedFrequency: 5, AggregateFunc: []string{"avg", "max", "min"}[r3%3], ValueJsonPath: "last", ResponseThreshold: 1}, Signer: who}
+						}
+						creator := who
+						for i := 0; i < nAcc; i++ {
+							if addr(i) == feed.Creator {
+								creator = i
+							}
+						}
+						switch r3 % 3 {
+						case 0:
+							return &hx.SignedMsg{Msg: &oracletypes.MsgStartFeed{FeedName: fname, Creator: addr(creator)}, Signer: creator}
+						case 1:
+							return &hx.SignedMsg{Msg: &oracletypes.MsgPauseFeed{FeedName: fname, Creator: addr(creator)}, Signer: creator}
+						default:
+							return &hx.SignedMsg{Msg: &oracletypes.MsgEditFeed{FeedName: fname, Description: "e", LatestHistory: 1 + r2%4, Creator: addr(creator)}, Signer: creator}
+						}
+					}
 					// respond to a pending request of this provider if there is one
 					if r1%2 == 0 {
 						var reqID string
@@ -259,7 +284,7 @@ func genPlan(seed uint64, blocks int) [][]step {
 						}
 						it.Close()
 						if reqID != "" {
-							return &hx.SignedMsg{Msg: &servicetypes.MsgRespondService{RequestId: strings.ToUpper(reqID), Provider: addr(prov), Result: `{"code":200,"message":""}`, Output: `{"header":{},"body":{}}`}, Signer: prov}
+							return &hx.SignedMsg{Msg: &servicetypes.MsgRespondService{RequestId: strings.ToUpper(reqID), Provider: addr(prov), Result: `{"code":200,"message":""}`, Output: fmt.Sprintf(`{"header":{},"body":{"last":"%d.5"}}`, r3%90)}, Signer: prov}
 						}
 					}
 					return &hx.SignedMsg{Msg: &servicetypes.MsgCallService{ServiceName: name, Providers: []string{addr(prov)}, Consumer: addr(who), Input: `{"header":{},"body":{}}`, ServiceFeeCap: sdk.NewCoins(coin("stake", 10)), Timeout: 3 + int64(r3%3), Repeated: r1%3 == 0, RepeatedFrequency: 6, RepeatedTotal: 2}, Signer: who}
@@ -367,7 +392,7 @@ func experiment(seed uint64, blocks int, zero bool, out *hx.Out) string {
 		return "ok halted=true where=" + clean(err.Error())
 	}
 	restartAt := 1 + int(seed%uint64(blocks-1))
-	_, ry, _, err := runPlan(plan, restartAt)
+	y, ry, _, err := runPlan(plan, restartAt)
 	if err != nil {
 		return "ok halted=true where=replica:" + clean(err.Error())
 	}
@@ -385,6 +410,14 @@ func experiment(seed uint64, blocks int, zero bool, out *hx.Out) string {
 		}
 	}
 	res := fmt.Sprintf("ok halted=false apphash_same=%v results_same=%v", hashSame, resSame)
+	// process-local registries and caches held by the keepers (map-typed fields): a node that was
+	// restarted must hold the same entries as one that ran through — anything filled lazily at run
+	// time (instead of at wiring or from the store) differs here before it differs in state
+	regX, regY := hx.RegistryDigest(x.Env), hx.RegistryDigest(y.Env)
+	res += fmt.Sprintf(" registries_same=%v", regX == regY)
+	if regX != regY {
+		res += " regdiff=" + clean(hx.FirstDiff(regX, regY))
+	}
 	if firstDiff >= 0 {
 		res += fmt.Sprintf(" first_diff_block=%d", firstDiff)
 	}
